@@ -474,6 +474,16 @@ def c17_large(rep):
             s_ = core.make_silence(d, 8000, sw, ch)
             if s_.data != b"\0" * (round(d * 8000) * sw * ch):
                 rep.violation("silence-large sw=%d ch=%d d=%r" % (sw, ch, d), "make_silence(%r) holds %d bytes" % (d, len(s_.data)), {"kind": "c17L"})
+        if (sw, ch) in ((2, 1), (4, 3), (2, 2)):
+            # silences of more than 1 MiB / 4 MiB whose sample count is still small
+            for d, sr_ in ((40.0, 16000), (1.5, 48000), (6.0, 48000), (23.5, 44100)):
+                rep.add("evaluations")
+                s_ = core.make_silence(d, sr_, sw, ch)
+                n_ = round(d * sr_) * sw * ch
+                if len(s_.data) != n_ or s_.data.count(0) != n_ or len(s_) != round(d * sr_):
+                    rep.violation("silence-large sw=%d ch=%d d=%r sr=%d" % (sw, ch, d, sr_),
+                                  "make_silence(%r, %d, %d, %d) holds %d bytes, round(d*rate) samples are %d bytes" % (d, sr_, sw, ch, len(s_.data), n_),
+                                  {"kind": "c17L"})
         if r.data != keep:
             rep.violation("mutated-large sw=%d ch=%d" % (sw, ch), "operand altered", {"kind": "c17L"})
 
